@@ -48,6 +48,7 @@ func init() {
 		"vTier": func(fr *frame, args []value) value { return Tier },
 		"vBudgetOK": func(fr *frame, args []value) value { fr.i.path.budgetOK = true; return nil },
 		"vHavoc": vHavocIntrinsic,
+		"vPickString": vPickStringIntrinsic,
 		"vSetupOnce": vSetupOnceIntrinsic,
 		"vBudgetHit": nil,
 	}
@@ -296,4 +297,31 @@ func vSetupOnceIntrinsic(fr *frame, args []value) value {
 	call(i, fr, 0, args[1], nil)
 	i.setupDone[key] = true
 	return nil
+}
+
+// vPickString(key, options): case split over the options; the chosen
+// *string* (not its index) is recorded among the inputs, so that a replay
+// against a build whose option list differs still picks the same string.
+func vPickStringIntrinsic(fr *frame, args []value) value {
+	ps := fr.i.path
+	key := argName(fr, args[0])
+	opts := args[1].([]value)
+	if ps.concreteMode {
+		n := int(ps.concrete[key+".len"])
+		b := make([]byte, n)
+		for k := range b {
+			b[k] = byte(ps.concrete[fmt.Sprintf("%s[%d]", key, k)])
+		}
+		return string(b)
+	}
+	k := ps.choice(key, len(opts))
+	s, ok := opts[k].(string)
+	if !ok {
+		unsupported("vPickString options must be concrete strings")
+	}
+	ps.inputs = append(ps.inputs, inputVar{key + ".len", mkBV(64, uint64(len(s))), "int"})
+	for j := 0; j < len(s); j++ {
+		ps.inputs = append(ps.inputs, inputVar{fmt.Sprintf("%s[%d]", key, j), mkBV(8, uint64(s[j])), "uint8"})
+	}
+	return s
 }
